@@ -374,16 +374,16 @@ Proof.
         split; [eapply wfh_nil; eauto|].
         intros m0 Hm0. apply in_app_or in Hm0. destruct Hm0 as [Hm0|[<-|[]]].
         -- eapply mprot_fr; [|apply Hacc; exact Hm0]. eapply fr_trans; [exact F1|apply fr_nil].
-        -- eapply decode_mem_mprot; eauto. cbn; lia.
-           split; [|split]; cbn [sub_slice s_id nil_slice]; auto. lia. intros E0; congruence.
+        -- eapply decode_mem_mprot; [exact D|exact W0|exact W0|].
+           split; [|split]; cbn [sub_slice s_id nil_slice]; [exact Hid|lia|intros E0; congruence].
       * assert (fr h hist h' (slice_from hist e)) as F2
           by (eapply fr_trans; [exact F1|apply fr_advance]).
         specialize (IH h' (slice_from hist e) (acc ++ [m]) (wfh_from _ _ e W1)).
         destruct IH as (F3 & W4 & M4).
         -- intros m0 Hm0. apply in_app_or in Hm0. destruct Hm0 as [Hm0|[<-|[]]].
            ++ eapply mprot_fr; [exact F2|apply Hacc; exact Hm0].
-           ++ eapply decode_mem_mprot; eauto.
-              split; [|split]; cbn [slice_from sub_slice s_id s_off s_len]; auto; lia.
+           ++ eapply decode_mem_mprot; [exact D|exact W0|exact Wid|].
+              split; [|split]; cbn [slice_from sub_slice s_id s_off s_len]; [exact Hid|lia|intros _; lia].
         -- split; [eapply fr_trans; eauto|split; auto].
     + cbn [u_heap u_hist u_msgs]. split; [apply fr_advance|split; [now apply wfh_from|]].
       intros m0 Hm0. eapply mprot_fr; [apply fr_advance|now apply Hacc].
